@@ -129,6 +129,18 @@ CLAIMED = {
             'inside digest is an uninterpreted function linked to the exhaustive codec unit; representative tag sets; pysam record '
             'stub; Illumina header variants other than the scmo k:v format are not under contract.',
             '5/C04'),
+    'C02': ('For 18 registered strategies (every class that uses UmiBarcodeDemuxMethod.demultiplex directly or through a thin '
+            'override: CEL-Seq1/2 incl. swapped mates, NLAIII 96/384 paired and single end, MspJI, scartrace R1/R2/R2RP4, 10x, '
+            'scCHIC and scCHIC direct ligation, DamID2) the real constructor and the real demultiplex are executed on read pairs '
+            'with symbolic sequences and qualities of arbitrary length: bc/RX/RQ/rS/lh/lq equal the bases/qualities at the declared '
+            'positions of the declared mate, the emitted sequence and qualities are the same slice of the same mate starting where '
+            'the declared prefix ends, the declared UMI/barcode/primer intervals are disjoint, and every base before the emitted '
+            'stretch is accounted for.',
+            'declared layout = constructor arguments stored on the strategy object (+ the documented scCHIC skip / DamID keep-'
+            'overlap); barcode lookup and phred encoding through their contracts (C03, C04: opaque here); Illumina header of the '
+            'common 7+4 field form; NOT under contract: scattered DamID layouts (DamID2_SCA, DamID2andT*), DamID2_c8_u3_cs2, '
+            'DamID2_NO_OVERHANG, SCCHIC *_cs2 / *_pdt / direct ligation SINGLE_END, the restriction-bisulfite strategy, Hexamer.',
+            '5/C02'),
 }
 
 NOT_YET = 'check not built yet (framework under construction; see DESIGN.md section 5)'
